@@ -139,7 +139,7 @@ func (encryptor *PostgreSQLTokenizeQuery) OnBind(ctx context.Context, parseResul
 				Warning("Invalid placeholder index")
 			return values, false, encryptor_base.ErrInvalidPlaceholder
 		}
-		indexes = append(indexes, index)
+		indexes = appendIndexOnce(indexes, index)
 	}
 
 	bindData := postgresql.ParseSearchQueryPlaceholdersSettings(parseResult, encryptor.schemaStore)
